@@ -72,7 +72,10 @@ pub(crate) enum JumpRecordAction {
 pub(crate) enum JumpRecordKind {
     Break,
     Continue,
-    Return { return_value_on_stack: bool },
+    Return {
+        /// Register that holds the return value, if the accumulator does not hold it already.
+        return_value: Option<u32>,
+    },
 }
 
 /// This represents a local control flow handling. See [`JumpRecordKind`] for types.
@@ -135,14 +138,9 @@ impl JumpRecord {
         match self.kind {
             JumpRecordKind::Break => compiler.patch_jump(self.label),
             JumpRecordKind::Continue => compiler.patch_jump_with_target(self.label, start_address),
-            JumpRecordKind::Return {
-                return_value_on_stack,
-            } => {
-                if return_value_on_stack {
-                    let value = compiler.register_allocator.alloc();
-                    compiler.pop_into_register(&value);
-                    compiler.bytecode.emit_set_accumulator(value.variable());
-                    compiler.register_allocator.dealloc(value);
+            JumpRecordKind::Return { return_value } => {
+                if let Some(value) = return_value {
+                    compiler.bytecode.emit_set_accumulator(value.into());
                 }
 
                 match (compiler.is_async(), compiler.is_generator()) {
